@@ -105,6 +105,7 @@ type sccp struct {
 	// hooks lets a rule give meaning to calls SCCP does not model
 	// (e.g. a scanner read returning a fixed token). Return ok=false to decline.
 	hook func(call *ssa.Call, args []cval) (results []cval, ok bool)
+	constMaps map[*ssa.Global]map[string]constant.Value
 	// override binds chosen SSA values (loads, calls) to constants: the
 	// "finite enumerated input" a table is extracted over.
 	override map[ssa.Value]cval
@@ -336,10 +337,126 @@ func (r *sccpRun) step(b *ssa.BasicBlock, in ssa.Instruction) bool {
 			}
 		}
 		return r.set(x, cTop)
+	case *ssa.Lookup:
+		// a read of a package-level table that is filled once from constants
+		if !x.CommaOk {
+			if ld, ok := x.X.(*ssa.UnOp); ok {
+				if g, ok := ld.X.(*ssa.Global); ok {
+					if tab, ok := r.s.constMap(g); ok {
+						k := r.get(x.Index)
+						if k.k == 0 {
+							return false
+						}
+						if k.isPlain() {
+							if v, has := tab[k.v.ExactString()]; has {
+								return r.set(x, cConst(v))
+							}
+							if zero := zeroConst(x.Type()); zero != nil {
+								return r.set(x, cConst(zero))
+							}
+						}
+					}
+				}
+			}
+		}
+		return r.set(x, cTop)
 	case ssa.Value:
 		return r.set(x, cTop)
 	}
 	return false
+}
+
+func zeroConst(t types.Type) constant.Value {
+	if b, ok := t.Underlying().(*types.Basic); ok {
+		switch {
+		case b.Info()&types.IsInteger != 0:
+			return constant.MakeInt64(0)
+		case b.Info()&types.IsBoolean != 0:
+			return constant.MakeBool(false)
+		case b.Info()&types.IsString != 0:
+			return constant.MakeString("")
+		}
+	}
+	return nil
+}
+
+// constMap: the contents of a package-level map that package initialisation
+// builds from constant keys and values and that nothing else writes.
+func (s *sccp) constMap(g *ssa.Global) (map[string]constant.Value, bool) {
+	if s.constMaps == nil {
+		s.constMaps = map[*ssa.Global]map[string]constant.Value{}
+	}
+	if t, ok := s.constMaps[g]; ok {
+		return t, t != nil
+	}
+	s.constMaps[g] = nil
+	initf := s.p.SPkg.Func("init")
+	if initf == nil {
+		return nil, false
+	}
+	var mk *ssa.MakeMap
+	for _, b := range initf.Blocks {
+		for _, in := range b.Instrs {
+			if st, ok := in.(*ssa.Store); ok && st.Addr == ssa.Value(g) {
+				m, ok := st.Val.(*ssa.MakeMap)
+				if !ok || mk != nil {
+					return nil, false
+				}
+				mk = m
+			}
+		}
+	}
+	if mk == nil {
+		return nil, false
+	}
+	tab := map[string]constant.Value{}
+	for _, ref := range *mk.Referrers() {
+		switch x := ref.(type) {
+		case *ssa.MapUpdate:
+			k, ok1 := x.Key.(*ssa.Const)
+			v, ok2 := x.Value.(*ssa.Const)
+			if !ok1 || !ok2 || k.Value == nil || v.Value == nil || x.Block() != mk.Block() {
+				return nil, false
+			}
+			tab[k.Value.ExactString()] = v.Value
+		case *ssa.Store:
+		default:
+			return nil, false
+		}
+	}
+	// nothing outside init touches it except reads
+	for _, m := range s.p.SPkg.Members {
+		fn, ok := m.(*ssa.Function)
+		if !ok {
+			continue
+		}
+		fns := append([]*ssa.Function{fn}, fn.AnonFuncs...)
+		for _, f := range fns {
+			if f == initf {
+				continue
+			}
+			for _, b := range f.Blocks {
+				for _, in := range b.Instrs {
+					for _, op := range in.Operands(nil) {
+						if *op != ssa.Value(g) {
+							continue
+						}
+						ld, ok := in.(*ssa.UnOp)
+						if !ok {
+							return nil, false
+						}
+						for _, r := range *ld.Referrers() {
+							if lk, ok := r.(*ssa.Lookup); !ok || lk.X != ssa.Value(ld) {
+								return nil, false
+							}
+						}
+					}
+				}
+			}
+		}
+	}
+	s.constMaps[g] = tab
+	return tab, true
 }
 
 func binop(op token.Token, a, b cval, operandType types.Type) (out cval) {
